@@ -18,7 +18,7 @@ theorem Inv.cRemoveN {s : State} (hI : Inv s) {a : Actor} {n f : Nat} (hp : s.pc
     intro h e; subst e
     rcases hI.kindF h with h1 | h1 <;> simp [hp, Pc.isWait] at h1
   obtain ⟨kindC, kindF, lockOk, frWait, freshOk, freshUniq, freshVer, freshVerT, freshNode, wFreeTaken, preOk, postOk, ownOk, rsmTaken,
-    freeTaken, pubNode, waiting, parked, listOk, scanOk, prevOk, placed, oScanOk, oNoneOk, aUnlockOk, aNextOk, aResumeOk, aFreeOk,
+    freeTaken, pubNode, waiting, parked, listOk, scanOk, prevOk, placed, freshHolder, scanL0, unlockL0, oScanOk, oNoneOk, aUnlockOk, aNextOk, aResumeOk, aFreeOk,
     noRead, cTakeOk, cRemoveOk, allocUsed, noBad⟩ := hI
   have hng : n ∉ s.glist f := by
     intro e
@@ -29,24 +29,24 @@ theorem Inv.cRemoveN {s : State} (hI : Inv s) {a : Actor} {n f : Nat} (hp : s.pc
     inv_simp
     grind [updA]
   constructor
-  case kindC => first | (inv_auto; done) | (trace "FAIL kindC"; sorry)
-  case kindF => first | (inv_auto; done) | (trace "FAIL kindF"; sorry)
-  case lockOk => first | (inv_auto; done) | (trace "FAIL lockOk"; sorry)
-  case frWait => first | (inv_auto; done) | (trace "FAIL frWait"; sorry)
-  case freshOk => first | (inv_auto; done) | (trace "FAIL freshOk"; sorry)
-  case freshUniq => first | (inv_auto; done) | (trace "FAIL freshUniq"; sorry)
-  case freshVer => first | (inv_auto; done) | (trace "FAIL freshVer"; sorry)
-  case freshVerT => first | (inv_auto; done) | (trace "FAIL freshVerT"; sorry)
-  case freshNode => first | (inv_auto; done) | (trace "FAIL freshNode"; sorry)
-  case wFreeTaken => first | (inv_auto; done) | (trace "FAIL wFreeTaken"; sorry)
-  case preOk => first | (inv_auto; done) | (trace "FAIL preOk"; sorry)
-  case postOk => first | (inv_auto; done) | (trace "FAIL postOk"; sorry)
-  case ownOk => first | (inv_auto; done) | (trace "FAIL ownOk"; sorry)
-  case rsmTaken => first | (inv_auto; done) | (trace "FAIL rsmTaken"; sorry)
-  case freeTaken => first | (inv_auto; done) | (trace "FAIL freeTaken"; sorry)
-  case pubNode => first | (inv_auto; done) | (trace "FAIL pubNode"; sorry)
-  case waiting => first | (inv_auto; done) | (trace "FAIL waiting"; sorry)
-  case parked => first | (inv_auto; done) | (trace "FAIL parked"; sorry)
+  case kindC => inv_auto
+  case kindF => inv_auto
+  case lockOk => inv_auto
+  case frWait => inv_auto
+  case freshOk => inv_auto
+  case freshUniq => inv_auto
+  case freshVer => inv_auto
+  case freshVerT => inv_auto
+  case freshNode => inv_auto
+  case wFreeTaken => inv_auto
+  case preOk => inv_auto
+  case postOk => inv_auto
+  case ownOk => inv_auto
+  case rsmTaken => inv_auto
+  case freeTaken => inv_auto
+  case pubNode => inv_auto
+  case waiting => inv_auto
+  case parked => inv_auto
   case listOk =>
     refine ListOk.transfer (s := s) (s' := (({ s with lock := upd s.lock f none }).setPc a (.cResume n))) rfl rfl rfl ?_ listOk
     intro g m hmg h
@@ -71,17 +71,20 @@ theorem Inv.cRemoveN {s : State} (hI : Inv s) {a : Actor} {n f : Nat} (hp : s.pc
     · inv_simp; grind
     · inv_simp; grind [updA, upd, Pc.pend, Pc.locks]
     · inv_simp; grind [updA]
-  case placed => first | (inv_auto; done) | (trace "FAIL placed"; sorry)
-  case oScanOk => first | (inv_auto; done) | (trace "FAIL oScanOk"; sorry)
-  case oNoneOk => first | (inv_auto; done) | (trace "FAIL oNoneOk"; sorry)
-  case aUnlockOk => first | (inv_auto; done) | (trace "FAIL aUnlockOk"; sorry)
-  case aNextOk => first | (inv_auto; done) | (trace "FAIL aNextOk"; sorry)
-  case aResumeOk => first | (inv_auto; done) | (trace "FAIL aResumeOk"; sorry)
-  case aFreeOk => first | (inv_auto; done) | (trace "FAIL aFreeOk"; sorry)
-  case noRead => first | (inv_auto; done) | (trace "FAIL noRead"; sorry)
-  case cTakeOk => first | (inv_auto; done) | (trace "FAIL cTakeOk"; sorry)
-  case cRemoveOk => first | (inv_auto; done) | (trace "FAIL cRemoveOk"; sorry)
-  case allocUsed => first | (inv_auto; done) | (trace "FAIL allocUsed"; sorry)
-  case noBad => first | (inv_auto; done) | (trace "FAIL noBad"; sorry)
+  case placed => inv_auto
+  case freshHolder => inv_auto
+  case scanL0 => inv_auto
+  case unlockL0 => inv_auto
+  case oScanOk => inv_auto
+  case oNoneOk => inv_auto
+  case aUnlockOk => inv_auto
+  case aNextOk => inv_auto
+  case aResumeOk => inv_auto
+  case aFreeOk => inv_auto
+  case noRead => inv_auto
+  case cTakeOk => inv_auto
+  case cRemoveOk => inv_auto
+  case allocUsed => inv_auto
+  case noBad => inv_auto
 
 end Babylon.Coro
